@@ -209,19 +209,45 @@ func OnceValues[T1, T2 any](f func() (T1, T2)) func() (T1, T2) {
 	return func() (T1, T2) { o.Do(func() { v1, v2 = f() }); return v1, v2 }
 }
 
-// Pool is a deterministic pool without reuse.
-type Pool struct{ New func() any }
+// Pool mirrors sync.Pool. Under the scheduler it always reuses, last in first out: handing a Put item to
+// the very next Get is a legal behaviour of sync.Pool and the hostile one (code that keeps using an item
+// after Put, or hands out memory it has returned to the pool, shows at once). Passthrough: the real pool.
+type Pool struct {
+	New   func() any
+	items []any
+	real  sync.Pool
+}
 
-// Get returns a new item.
+// Get returns the most recently Put item, or a new one.
 func (p *Pool) Get() any {
+	if !vrt.Active() {
+		if v := p.real.Get(); v != nil {
+			return v
+		}
+		if p.New != nil {
+			return p.New()
+		}
+		return nil
+	}
+	if n := len(p.items); n > 0 {
+		v := p.items[n-1]
+		p.items = p.items[:n-1]
+		return v
+	}
 	if p.New != nil {
 		return p.New()
 	}
 	return nil
 }
 
-// Put drops the item.
-func (p *Pool) Put(any) {}
+// Put returns an item to the pool.
+func (p *Pool) Put(v any) {
+	if !vrt.Active() {
+		p.real.Put(v)
+		return
+	}
+	p.items = append(p.items, v)
+}
 
 // Map is sync.Map (operations are atomic steps without scheduling points).
 type Map = sync.Map
